@@ -3461,6 +3461,18 @@ class RoConstr:
             constr_list = [constr1, constr2, constr3]
             constr_list += [] if bounds is None else bounds
 
+        if self.raffine.shape[1] > num_rand:
+            # random variables declared after the support was defined are not
+            # restricted by it: their coefficients must vanish
+            free = self.raffine[:, num_rand:]
+            free = free.reshape((free.size, ))
+            rows = ((abs(free.linear).sum(axis=1).A1 != 0) |
+                    (free.const != 0))
+            if rows.any():
+                constr_list.append(LinConstr(free.model, free.linear[rows],
+                                             -free.const[rows],
+                                             np.ones(rows.sum(), dtype=int)))
+
         for n in range(num_constr):
             for qconstr in support.qmat:
                 indices = np.array(qconstr, dtype=int) + n*size_support
